@@ -324,7 +324,8 @@ impl<'a> Gen<'a> {
             let st = if self.chance(30) { Ty::Felt } else { Ty::Int(*self.rng.pick(&[Ity::U8, Ity::U16, Ity::U32, Ity::U64, Ity::U128])) };
             // keep the scrutinee small so that the arms are reached
             let sc = self.small_scrutinee(&st, d);
-            let n = 1 + self.rng.below(6) as usize;
+            let many = self.chance(25);
+            let n = 1 + self.rng.below(if many { 11 } else { 5 }) as usize;
             let arms = (0..n).map(|_| self.block(ty, d)).collect();
             let dflt = self.block(ty, d);
             return Expr::MatchInt(st, Box::new(sc), arms, Box::new(dflt));
@@ -884,7 +885,9 @@ impl<'a> Gen<'a> {
             self.stats.hit("assert");
             let short = self.chance(60);
             let saved = self.in_macro;
-            self.in_macro = saved || !short;
+            // loops inside `assert!` arguments are generated again: the defect they exposed in the
+            // debug naming of loop functions is repaired in /repo (probe: corpus/C01/loop_in_macro.cairo)
+            self.in_macro = saved;
             let c = self.expr(&Ty::Bool, d.min(2));
             self.in_macro = saved;
             let m = if short {
